@@ -5,7 +5,7 @@ import os, sys, json, time, subprocess, hashlib, random, traceback, tempfile, sh
 HERE = os.path.dirname(os.path.abspath(__file__))
 VERIF = os.path.dirname(HERE)
 LEAN_DIR = os.path.join(VERIF, 'lean')
-DRIVER = os.path.join(LEAN_DIR, '.lake', 'build', 'bin', 'driver')
+DRIVER = os.environ.get('VERIF_DRIVER') or os.path.join(LEAN_DIR, '.lake', 'build', 'bin', 'driver')   # (VERIF_DRIVER: model-mutation sweeps only)
 sys.path.insert(0, HERE)
 
 import gen                                                       # noqa: E402
@@ -174,7 +174,7 @@ class Result(object):
         self.hist[key] = self.hist.get(key, 0) + n
 
 def write_replay(prop, seed, idx, payload):
-    d = os.path.join(VERIF, 'replays')
+    d = os.environ.get('VERIF_REPLAY_DIR') or os.path.join(VERIF, 'replays')     # (mutation sweeps write elsewhere)
     os.makedirs(d, exist_ok=True)
     path = os.path.join(d, '%s-%s-%s.json' % (prop, seed, idx))
     payload = dict(payload, property=prop, seed=seed, case=idx)
